@@ -28,6 +28,7 @@ THEOREMS = [
     "GitAi.Routing.extracted_exits_cover_model",
     "GitAi.Routing.extracted_presets_match_model",
     "GitAi.Routing.extracted_no_unguarded_unwrap",
+    "GitAi.Routing.extracted_preset_panic_sites_reviewed",
     "GitAi.Routing.exit_zero",
     "GitAi.Routing.agentv1_total",
     "GitAi.Routing.agentv1_scalars_rejected",
@@ -76,7 +77,10 @@ def run(tier, seed):
         res.extra["extraction"] = {
             "exit_sites": [{"line": s["line"], "code": s["code_text"], "site": s["label"]} for s in extraction["sites"]],
             "unwraps": extraction["unwraps"], "preset_source_counts": extraction["preset_counts"],
-            "preset_arms": [a["name"] for a in extraction["arms"]]}
+            "preset_arms": [a["name"] for a in extraction["arms"]],
+            "preset_panic_sites": {"by_class": {c: sum(1 for u in extraction["preset_sites"] if u["class"] == c)
+                                                for c in ("jsonIndex", "reviewed", "unreviewed")},
+                                   "unreviewed": [u for u in extraction["preset_sites"] if u["class"] == "unreviewed"]}}
     except Exception as e:  # ExtractError or unexpected source shape
         res.obligation("extract handle_checkpoint exit/unwrap tables", False, "extraction")
         res.broken_tie("extractor checkpoint_exits.py", str(e))
